@@ -104,7 +104,7 @@ def ensure_java():
             raise ModelError("javac failed:\n" + r.stdout)
 
 _md = [0]
-def tlc(module, cfg=None, env=None, workers=1, timeout=1800, overrides=True, extra=(), heap="4g", cwd=SPEC):
+def tlc(module, cfg=None, env=None, workers=1, timeout=1800, overrides=True, extra=(), heap="3g", cwd=SPEC):
     """run TLC on spec/<module>.tla; returns (returncode, stdout)"""
     ensure_java()
     _md[0] += 1
